@@ -43,6 +43,8 @@ type c05Scenario struct {
 	Cases   int        `json:"cases"`
 	Filters c05Filters `json:"filters"`
 	Workers int        `json:"workers"`
+	// UnreadableLine: the exclusion file holds an over-long line between its regexes
+	UnreadableLine bool `json:"unreadable_line,omitempty"`
 }
 
 // c05InScope is the reference predicate, written from the statement, on the wire URL.
@@ -139,7 +141,15 @@ func c05Child(scPath string) int {
 		res = append(res, regexp.MustCompile(s))
 	}
 	exFile := filepath.Join(dir, "exclusions.txt")
-	os.WriteFile(exFile, []byte(strings.Join(sc.Filters.Regexes, "\n")), 0o644)
+	exLines := append([]string(nil), sc.Filters.Regexes...)
+	if sc.UnreadableLine && len(exLines) >= 2 {
+		// a line longer than any line reader's buffer (a valid regex that matches nothing in play), placed
+		// between regexes: the file cannot be read to its end. A crawler that starts anyway must still
+		// honour every regex of the file the operator gave it.
+		long := "neverfound" + strings.Repeat("z", 70<<10)
+		exLines = append(exLines[:1], append([]string{long}, exLines[1:]...)...)
+	}
+	os.WriteFile(exFile, []byte(strings.Join(exLines, "\n")), 0o644)
 	zenoConfig(dir, false, func(c *config.Config) {
 		c.WorkersCount = sc.Workers
 		c.IncludeHosts = sc.Filters.IncludeHosts
@@ -154,6 +164,12 @@ func c05Child(scPath string) int {
 	})
 	h, err := startStages(true)
 	if err != nil {
+		if sc.UnreadableLine {
+			// refusing the configuration is the safe answer: nothing is crawled, nothing can leave the scope
+			rep.event("configuration_refused_unreadable_exclusion_file", 1)
+			rep.Evaluations++
+			return 0
+		}
 		rep.violation("harness/start", err.Error(), nil)
 		return 0
 	}
@@ -274,7 +290,7 @@ func c05(r *vc.Run) int {
 		if i == 0 {
 			f = c05Filters{} // the default configuration: only the shipped exclusions
 		}
-		sc := c05Scenario{Seed: r.Seed, Index: i, Cases: cases, Filters: f, Workers: 1 + i%3}
+		sc := c05Scenario{Seed: r.Seed, Index: i, Cases: cases, Filters: f, Workers: 1 + i%3, UnreadableLine: i%5 == 3 && len(f.Regexes) >= 2}
 		res := runChild(os.Getenv("VZ_BIN"), "c05", sc, filepath.Join(r.Scratch, fmt.Sprintf("c05-%d", i)), 20*time.Minute)
 		absorb(r, m, res, fmt.Sprintf("filterset%d", i), sc, true)
 	})
